@@ -331,7 +331,7 @@ class NumExec:
             return Num(xr.div(a.x, b.x), data, py)
         if isinstance(op, ast.Pow):
             if isinstance(r, int) and not isinstance(r, bool) and r == 2:
-                return Num(xr.mul(a.x, a.x), data, py, a.isint)
+                return Num(s.ax.xsquare(a.x), data, py, a.isint)
             if py:
                 raise Unsupported(f"Python-float ** at line {e.lineno}")
             return Num(s.ax.xpow(a.x, b.x), data, False)
@@ -465,7 +465,7 @@ class NumExec:
         if name == "isinf":
             v = N(a[0]); return Bool(xr.isinf(v.x), v.data, False)
         if name == "square":
-            return un(xr.square, True)
+            return un(s.ax.xsquare, True)
         if name in ("abs", "absolute", "fabs"):
             return un(xr.xabs, True)
         if name == "negative":
